@@ -363,7 +363,7 @@ def prog_C07(ctx):
 
 def prog_C11(ctx):
     fsm_part(ctx, ['C05', 'C11'], ['event_dkg'])
-    res = generic(ctx, ['Dc4bcVerif.Props.C11', 'Dc4bcVerif.Props.C11Air', 'Dc4bcVerif.Props.C12AirOrder', 'Dc4bcVerif.Props.AirDkgSrc', 'Dc4bcVerif.Props.C02'], 'algdiff', 'alg', ['C11'], ALG_TRUSTED,
+    res = generic(ctx, ['Dc4bcVerif.Props.C11', 'Dc4bcVerif.Props.C11Air', 'Dc4bcVerif.Props.C11AirComplete', 'Dc4bcVerif.Props.C12AirOrder', 'Dc4bcVerif.Props.AirDkgSrc', 'Dc4bcVerif.Props.C02'], 'algdiff', 'alg', ['C11'], ALG_TRUSTED,
             ALG_RULE + '; C11: one key generation per (deviation kind, dealer, victim): broadcast commitments with replaced tail / all replaced / longer / shorter / a non-point, deal bit-flipped / truncated / empty / meant for somebody else, a response turned into a complaint, a well-formed ciphertext of {} (a deal naming dealer 0), the self-confirmation marker as a deal; quick: (3,2) one pair per kind; thorough: four configurations, all or sampled pairs; plus a control run without deviation',
             cov_from_stats=alg_cov)
     airdkg_part(ctx, res)
@@ -453,7 +453,7 @@ def prog_C20(ctx):
 
 def prog_C04(ctx):
     G['step_translate'](ctx)
-    G['step_proofs'](ctx, ['Dc4bcVerif.Props.C04', 'Dc4bcVerif.Props.C04Src', 'Dc4bcVerif.Props.C02'])
+    G['step_proofs'](ctx, ['Dc4bcVerif.Props.C04', 'Dc4bcVerif.Props.C04Src', 'Dc4bcVerif.Props.C04Air', 'Dc4bcVerif.Props.AirDkgSrc', 'Dc4bcVerif.Props.C02'])
     ctx.cov['trusted_base'] = BASE_TRUSTED + [
         'symbolic model Model/Sym.lean: the terms a machine exports are written by hand from airgapped/dkg.go and airgapped/bls.go; cryptography is perfect by construction (ECIES, Schnorr, BLS, exponentiation are constructors without inverses)',
         'secretdiff (no model stream: the real code under monitors): three key generations (same participants; same and different threshold) and two signing batches on the same real machines; every result file, every board message and every file of every airgapped database is searched for every secret read through the verif hooks (long-term key, seed, every polynomial coefficient, every BLS share) raw, reversed, hex, HEX, base64 std/url with and without padding, also inside JSON-nested base64 to depth 4; every (deal, machine key) pair is tried with ecies.Decrypt; five wrong passwords per machine after a correct unlock in the same process, and on ONE live Machine value (the running machines of the ceremonies; a machine restarted on its database): right password and use, DropSensitiveData (the idle timer), no password / several wrong passwords in sequence - LoadKeysFromDB, GetBLSKeyrings and the signing operations must fail every time - and the right password again at the end; shares, public polynomials and dealer coefficients of all pairs of rounds are compared',
@@ -461,6 +461,11 @@ def prog_C04(ctx):
         'secretdiff, faulty operations: a machine with a participant\'s mnemonic is fed mutated variants of every operation that participant received (JSON leaves, fields carried over from a sibling entry, identifiers of every short length, type confusion; 25 sampled per operation in quick plus all sibling-field variants, all in thorough) and every answer - result file or refusal text - is searched like the genuine results; numbers are also searched as printed numbers (hex without leading zero bytes, decimal)',
         'not covered: process memory, swap, side channels, strength of scrypt/AES-GCM/ECIES; the base seed itself is stored in the clear in the database (the property names the private key and the shares as encrypted at rest, not the seed; recorded in DESIGN.md as an observation)']
     ctx.cov['rule'] = 'quick: (3,2); thorough: (3,2),(2,2),(4,3),(4,2); all outputs of the three rounds and two batches'
+    # what a machine signs when it handles the same deals again (replays, clones of one mnemonic): airdiff's nonce monitor
+    # (fix 6d0dc23: two Schnorr signatures with one nonce over different responses give the long-term key away)
+    ar = monitor_only(ctx, 'airdiff', ['C04'], 'replayed_answers')
+    if ar:
+        ctx.cov['replayed_answers'] = dict(response_signatures=ar.get('ResponseSigs'), nonce_reuses=ar.get('NonceReuses'))
     st = monitor_only(ctx, 'secretdiff', ['C04'], 'secret_scan')
     if st:
         ctx.cov.update(evaluations=st['Searches'] + st['DealPairs'] + st['WrongPasswords'] + st['RoundPairs'], distinct_nontrivial=st['Secrets'] + st['Haystacks'], exhaustive=False,
